@@ -244,6 +244,9 @@ fn run<C: Cs>(ctx: &Ctx, idx: u64, nmax: usize) {
     let special = special_bundles::<C>(ctx, &st, &mut r, nmax);
     ctx.count("trusted_or_equal_attribute_proofs", special.len() as u64);
     bundles.extend(special);
+    let hostile = hostile_key_bundles::<C>(ctx, &st, &mut r, nmax.min(3));
+    ctx.count("proofs_under_hostile_commitment_keys", hostile.len() as u64);
+    bundles.extend(hostile);
     ctx.count("proofs_attacked", bundles.len() as u64);
     par_for_each(&bundles, 12, |b| attack(ctx, b));
 }
